@@ -23,6 +23,7 @@ EXPLANATION = (
 )
 ASSUMPTIONS = [
     "x86-64 assembly: verified through tools/lift_x86_64.py (trusted: its instruction table for movq/xorq/andq/notq/rorq/pushq/popq/cmpq+jge/jmp/ret and the leaq-movslq-addq-jmp* jump-table idiom; System V argument registers, first_round arriving zero-extended in rsi; gas assembling the text it is given; only the Linux/ELF preprocessor variant of prologue/epilogue). The other eleven assembly backends are not covered",
+    "byte operations of the 32-bit bit-sliced backend: add, overwrite, init, copy are proved (thorough tier); the extract family exhausts the solver (bit de-interleaving of symbolic offsets) and ascon_overwrite_with_zeroes hits the CBMC 6.11 union anomaly (state->S[i] = 0 followed by a read through W[]: CBMC reports byte 22 non-zero for offset 12, size 19, while the native exhaustive test over all (offset, size) passes) - these are NOT covered and no alarm is raised for them",
     "start rounds above 12 are outside the contract (the 32-bit backend forms the pointer RC + 2*first_round, which is only defined up to 12)",
 ]
 TRUSTED = []
@@ -90,4 +91,7 @@ def groups(tier):
     gs += asm_groups()
     for cfg in (["C64"] if tier == "quick" else ["C64", "DX", "DEF"]):
         gs += byteop_groups(cfg)
+    if tier == "thorough":
+        # 32-bit bit-sliced backend: only the operations CBMC 6.11 can decide (see ASSUMPTIONS)
+        gs += [g for g in byteop_groups("C32") if any(k in g.name for k in ("ascon_add_bytes", "ascon_overwrite_bytes", "ascon_init", "ascon_copy"))]
     return gs
